@@ -79,6 +79,8 @@ func vfRunTracerOps(ops []vfTrOp) (viol error, invalid bool) {
 	tr := &Tracer{}
 	model := map[int]*vfSlot{}
 	waiters := map[int]*vfWaiterState{}
+	var obtainedMu sync.Mutex
+	var obtained []vfObtained
 	nextID := 0
 	name := func(n int) string { return fmt.Sprintf("test/%d", n) }
 	defer func() {
@@ -188,6 +190,9 @@ func vfRunTracerOps(ops []vfTrOp) (viol error, invalid bool) {
 				res := vfAwaitResult{err: err}
 				if trace != nil && trace.Err != nil {
 					res.id = trace.Err.Error()
+					obtainedMu.Lock()
+					obtained = append(obtained, vfObtained{trace, res.id, n})
+					obtainedMu.Unlock()
 				}
 				ws.result <- res
 			}(name(op.Name))
@@ -236,7 +241,21 @@ func vfRunTracerOps(ops []vfTrOp) (viol error, invalid bool) {
 			return err, false
 		}
 	}
+	// a trace that was handed to a waiter stays that trace, whatever happens to the name (or other names) afterwards
+	obtainedMu.Lock()
+	defer obtainedMu.Unlock()
+	for _, o := range obtained {
+		if o.trace.Err == nil || o.trace.Err.Error() != o.id || o.trace.TestName != o.name {
+			return verifkit.Violf("trace-changed-after-handoff", "after %v: the trace a waiter obtained for %s (%s) now reads as the trace %v of %q", ops, o.name, o.id, o.trace.Err, o.trace.TestName), false
+		}
+	}
 	return nil, false
+}
+
+type vfObtained struct {
+	trace *Trace
+	id    string
+	name  string
 }
 
 func vfTrClassify(c vfTrCase) ([]string, bool) {
